@@ -56,6 +56,9 @@ class SymProvider:
     def sampled_real(self, name, sampler):
         return self.real(name)
 
+    def draw_from(self, pool):
+        """concrete-side hint only (see ConcreteProvider.draw_from)"""
+
     # ---- IEEE binary64 inputs (symrun/fp.py)
     def fp(self, name, lo=None, hi=None):
         from . import fp
